@@ -113,10 +113,12 @@ Lemma io_keyed_not_pycrypto q kt :
   assoc q cryptography_io_funcs = Some kt -> assoc q pycrypto_funcs = None.
 Proof.
   unfold cryptography_io_funcs. cbn [assoc].
-  destruct (pstr_eqb q _) eqn:E1; [apply pstr_eqb_spec in E1; subst; reflexivity|].
-  destruct (pstr_eqb q _) eqn:E2; [apply pstr_eqb_spec in E2; subst; reflexivity|].
-  destruct (pstr_eqb q _) eqn:E3; [apply pstr_eqb_spec in E3; subst; reflexivity|].
-  discriminate.
+  repeat match goal with
+         | |- context [pstr_eqb q ?x] =>
+             let E := fresh "E" in
+             destruct (pstr_eqb q x) eqn:E; [apply pstr_eqb_spec in E; subst q; intros _; reflexivity|]
+         end.
+  intro H; discriminate H.
 Qed.
 
 Lemma key_size_of_kw c kw pos k :
@@ -251,6 +253,42 @@ Qed.
 Lemma curve_unknown_default s :
   assoc s curve_key_sizes = None -> curve_size (Some (PStr s)) = Ok 224%Z.
 Proof. intro H. unfold curve_size. cbn [hashable]. rewrite H. reflexivity. Qed.
+
+(* EC keys: a curve given as the keyword (attribute, name or string) is classified by its table size *)
+Definition ec_q : pstr := s2p "cryptography.hazmat.primitives.asymmetric.ec.generate_private_key".
+
+Lemma ec_curve_keyword c cfg s :
+  c_qualname c = Some ec_q ->
+  get_call_arg_value c (s2p "curve") = Ok (PStr s) -> s <> [] ->
+  weak_cryptographic_key c cfg =
+  classify_key_size cfg EC (PInt (match assoc s curve_key_sizes with Some z => z | None => 224%Z end)).
+Proof.
+  intros Hq Hv Hs.
+  unfold weak_cryptographic_key, weak_crypto_key_size_cryptography_io, weak_crypto_key_size_pycrypto,
+    func_key_type. rewrite Hq.
+  change (assoc ec_q cryptography_io_funcs) with (Some EC).
+  change (assoc ec_q pycrypto_funcs) with (@None key_type).
+  unfold ec_curve. rewrite Hv. cbn [bind truthy truthy_str].
+  destruct s as [|x s]; [contradiction|]. cbn [bind curve_size hashable]. apply bind_id.
+Qed.
+
+Example ec_curve_keyword_ex :
+  let c := ex_ctx [] "cryptography.hazmat.primitives.asymmetric.ec.generate_private_key"
+                  (ex_call (ex_attr (ex_name "ec") "generate_private_key") []
+                           [ex_kw "curve" (ex_attr (ex_name "ec") "SECT163K1")]) in
+  get_call_arg_value c (s2p "curve") = Ok (PStr (s2p "SECT163K1")) /\
+  option_map ri_sev (match weak_cryptographic_key c weak_key_default_cfg with Ok r => r | _ => None end)
+  = Some MEDIUM.
+Proof. split; reflexivity. Qed.
+
+(* the curve given the way the cryptography API wants it -- an instance, ec.SECP192R1() -- is not a
+   literal: the table is never consulted and the default 224 applies *)
+Example ec_curve_instance_missed :
+  let c := ex_ctx [] "cryptography.hazmat.primitives.asymmetric.ec.generate_private_key"
+                  (ex_call (ex_attr (ex_name "ec") "generate_private_key")
+                           [ex_call (ex_attr (ex_name "ec") "SECP192R1") [] []] []) in
+  weak_cryptographic_key c weak_key_default_cfg = Ok None.
+Proof. reflexivity. Qed.
 
 (* ------------------------------------------------------------------------------------------------ *)
 (* B324                                                                                              *)
@@ -562,7 +600,7 @@ Proof.
   - destruct (qual_is c q_ssl_context).
     + destruct (bad_hit bad vm); reflexivity.
     + destruct (bad_hit bad vm); cbn [bind orb]; [reflexivity|].
-      rewrite Hrs. destruct (bad_hit bad vs); reflexivity.
+      destruct (bad_hit bad vs); reflexivity.
 Qed.
 
 (* with a list of strings as configuration, a str value (attribute name, name or string literal) hits iff listed *)
@@ -570,7 +608,7 @@ Lemma bad_hit_str names s :
   bad_hit (JList (map JStr names)) (PStr s) = mem_pstr s names.
 Proof.
   unfold bad_hit, cfg_values, mem_pstr. induction names as [|n t IH]; [reflexivity|].
-  cbn [map existsb pv_eq_jv]. rewrite IH. reflexivity.
+  cbn [map existsb]. rewrite IH. reflexivity.
 Qed.
 
 Definition ex_wrap_ctx (kws : list node) : ctx :=
@@ -621,9 +659,9 @@ Proof.
   split.
   - intros v Hv. unfold snmp_insecure_version_check. destruct (qual_is c q_community_data); [|reflexivity].
     unfold check_call_arg_int. rewrite Hv. cbn [bind andb].
-    destruct v; cbn [bind is_true]; try reflexivity;
-      repeat match goal with |- context [if ?b then _ else _] => destruct b; cbn [bind is_true orb] end;
-      reflexivity.
+    set (b0 := pv_eq_Z v 0). set (b1 := pv_eq_Z v 1).
+    destruct v; try (destruct b0, b1; reflexivity).
+    subst b0 b1. reflexivity.
   - intros n Hn. unfold snmp_crypto_check. destruct (qual_is c q_usm_user_data); [|reflexivity].
     rewrite Hn. cbn [andb]. destruct (Nat.ltb n 3); reflexivity.
 Qed.
@@ -725,7 +763,7 @@ Proof.
     destruct (qual_is c q_ssl_context); reflexivity.
   - intros c cfg bad Hc Hd. unfold ssl_with_bad_defaults, get_bad_proto_versions. rewrite Hc, Hd. reflexivity.
   - intros c v Hv Hn. rewrite (ssl_no_version_rule c v Hv).
-    destruct v; try reflexivity; [contradiction|]; rewrite andb_false_r; reflexivity.
+    destruct v; [contradiction| ..]; cbn [is_pnone]; rewrite andb_false_r; reflexivity.
   - intros c q v Hq Hv Hn. rewrite (verify_false_rule c q v Hq Hv).
     destruct (pyval_eqb v (PStr (s2p "False"))) eqn:E; [|rewrite andb_false_r; reflexivity].
     exfalso. apply Hn. destruct v; cbn [pyval_eqb] in E; try discriminate.
